@@ -10,6 +10,17 @@ CLAIMED = {
          "Every value of the 8/16-bit types and booleans, every string/octet length 0..300 and 65500..65535, fixed octet arrays 1..100 and tens of thousands (quick) to millions (thorough) of boundary-biased random values of all 18 types are encoded by the library and compared byte-for-byte with an independent RFC 7011 codec, decoded back bit-exactly, and pushed through the collector to confirm the decoder consumes exactly the encoded length. Exhaustive where the space is small, sampled elsewhere: absence of a defect for an unsampled 32/64-bit value is not shown.",
          "trusted: harness/refipfix (independent codec), the verif hook VerifDecodePacket (a plain call of decodePacket)", "DESIGN.md section 3 C15"),
 }
+CLAIMED.update({
+ "C03": ("property-based testing + fuzzing: exhaustive truncation/padding enumeration of valid messages, rapid-generated packet histories (grammar + mutations) against the reference data-set parser (differential oracle) with panic/hang/heap watchdogs; native go fuzzing in the thorough tier",
+         "Every truncation point and padding extension of small valid messages, degenerate templates, and tens of thousands (quick) to millions (thorough) of generated packet histories in all three decoding modes are decoded in-process; panics, hangs and runaway allocation are violations, and every returned data message is compared record-for-record with an independent strict parser of the set body under the stored template; template messages are compared with the wire's ids/enterprise numbers. Sampling: a crash needing a byte pattern the generators and the fuzzer never produce is not excluded.",
+         "trusted: harness/refipfix; verif hooks VerifDecodePacket/VerifTemplates; 'template in force' is what the collector stores (C04 judges that); hang rule 10 s / 1 GiB per <=64 KiB packet", "DESIGN.md section 3 C03"),
+ "C04": ("model-based property testing: exhaustive enumeration of all histories over a 28-symbol alphabet to depth 3/4 plus rapid random histories, against an independent map model of the template table and the reference parser",
+         "All histories up to depth 3 (quick) / 4 (thorough) over {template A/B/with-unknown, truncated template, data A/B} x 2 domains x 2 ids x 3 modes x tcp/udp, plus random histories up to 60 steps with random templates: after every step the collector's outcome (accept with exactly the reference records / reject) and its stored template table must equal an independent model. Exhaustive only for the bounded alphabet and depth.",
+         "trusted: harness/refipfix, the map model, verif hooks; a template record header cut below 4 bytes counts as 'id not read' (pinned by the repository's own test)", "DESIGN.md section 3 C04"),
+ "C17": ("property-based testing: rapid-generated templates mixing known and unknown elements; differential oracle (reference parser) and metamorphic relation (same case with unknown fields deleted) across the three decoding modes",
+         "Tens of thousands (quick) to hundreds of thousands (thorough) of generated templates with unknown elements at all positions, fixed and variable lengths, are fed to strict/keep/drop collectors: strict must reject template and data, keep must deliver every unknown field as an octet array with exactly the received bytes, drop must deliver exactly the known fields, and known fields must equal what a collector sees when the unknown fields are absent. Sampled, not exhaustive.",
+         "trusted: harness/refipfix, verif hook VerifDecodePacket", "DESIGN.md section 3 C17"),
+})
 HOOK_COMMITS = ["bde829d"]
 
 checks = []
